@@ -173,6 +173,12 @@ def run(ctx):
                 viol.append(dict(v, property='C17', kind='not-each-once' if v['property'] == 'C02' else v['kind'], witness={'spec': spec, 'all_lower': lower}))
     for i in range(ctx.scale(10, 50)):
         spec = prince_spec(rng, ngram=2 + i % 4)
+        if i == 3:
+            # whatever the seed: words of two types whose probabilities are different numbers within 1e-9 of each other, relatively
+            spec = dict(spec, terminals={'D1': [['7', '0.4'], ['3', '0.35'], ['1', '0.25']],
+                                         'D2': [['42', '0.4000000002'], ['12', '0.3499999999'], ['99', '0.2499999999']]},
+                        grammar=[['D1', '0.5'], ['D2', '0.5']], prince=[['D1', '0.5'], ['D2', '0.5']])
+            spec.pop('decoy_files', None); spec.pop('listed_twice', None); spec.pop('no_final_newline', None)
         if i == 2:
             # whatever the seed: groups of four and three equally probable words and two equally probable masks; every N is tried
             spec = dict(spec, terminals={'A3': [['abc', '0.25'], ['abd', '0.25'], ['abe', '0.25'], ['abf', '0.25']],
@@ -240,7 +246,7 @@ def run(ctx):
                     sizes.add(acc + len(g[2]) - 1)
                 acc += len(g[2])
             sizes = sorted(s for s in sizes if s >= 1)
-            if i == 2:
+            if i in (2, 3):
                 sizes = list(range(1, total + 2))
             elif ctx.quick and len(sizes) > 6:
                 sizes = sorted(rng.sample(sizes, 6))
